@@ -14,7 +14,8 @@
      - the state machine of _sparse_eigs: nmodes / sigma defaults, mat_shifted = A - sigma B (B := I when
        absent and sigma != 0), creation of the solver `Ainv`, the do_solve flag, Ainv.update(mat_shifted).
    Number domain: any `Num K` plus the operations in `EigOps K`; instances at the end: R (theorems),
-   Q (float64 data) and Q[i] (complex128 data) for evaluation on Fraction(float) values. *)
+   dyadic numbers (float64 data) and pairs of them (complex128 data) for evaluation on the exact values
+   of the floats. *)
 From Coq Require Import ZArith QArith Qabs Reals List Bool.
 From Pymoto Require Import Base.Num Base.QMat.
 Import ListNotations.
@@ -308,6 +309,7 @@ Section Model.
     oK : option Z; oSigma : option K; oMode : option nat; oM : obsM;
     oProbe : option (list K * list K); (* (b, x) with x = OPinv.matvec(b) observed at call time *)
     oRawW : list K; oRawQ : mat;       (* what the library returned *)
+    oAlt : list (libfun * (list K * mat)); (* level 2 only: results of the dense routines called by the harness itself *)
     oOut : res (list K * mat);         (* what the module returned / the exception class *)
     oStrict : list bool;               (* per RAW column: compare strictly (true) or up to sign *)
     oTolC : Q; oTolW : Q; oTolQ : Q; oTolP : Q
@@ -343,8 +345,9 @@ Section Model.
     match oProbe o with None => true | Some _ => probe_ok c o end.
 
   (* oLevel 0: everything; 1: dispatch only (the library raised / the matrix class changed in a history);
-     2: the library call could not be recorded: the module's own output serves as the oracle value
-        (post-processing must then be idempotent up to sign), dispatch not compared *)
+     2: the library call could not be recorded (fallback): dense routines are re-run by the harness (oAlt) and the
+        MODEL's dispatch picks the result; for ARPACK (not reproducible) the module's own output serves as the oracle
+        value (post-processing must then be idempotent up to sign); the recorded dispatch is not compared *)
   Definition check_call (sf : sortfn) (st : estate) (p : pencil) (o : obs) : estate * bool :=
     let '(st', rc) := response st p in
     (st',
@@ -353,12 +356,19 @@ Section Model.
      | Ok c =>
          (Nat.eqb (oLevel o) 2 || dispatch_ok c o) && probe_if_any c o &&
          (Nat.eqb (oLevel o) 1 ||
-          ((Nat.eqb (oLevel o) 2 || probe_ok c o) &&
-           contract_ok (oTolC o) (cA c) (cM c) (oRawW o) (oRawQ o) &&
-           match postprocess sf (pB p) (oRawW o) (oRawQ o), oOut o with
+          (let '(rW, rQ) :=
+             if Nat.eqb (oLevel o) 2 then
+               match find (fun a => libfun_eqb (fst a) (cFun c)) (oAlt o) with
+               | Some (_, r) => r
+               | None => (oRawW o, oRawQ o)
+               end
+             else (oRawW o, oRawQ o) in
+           (Nat.eqb (oLevel o) 2 || probe_ok c o) &&
+           contract_ok (oTolC o) (cA c) (cM c) rW rQ &&
+           match postprocess sf (pB p) rW rQ, oOut o with
            | Ok (W, Qm), Ok (W', Qm') =>
                vclose (oTolW o) W W' &&
-               cols_close (oTolQ o) (map (fun i => nth i (oStrict o) true) (sf (oRawW o) (oRawQ o))) Qm Qm'
+               cols_close (oTolQ o) (map (fun i => nth i (oStrict o) true) (sf rW rQ)) Qm Qm'
            | Err e, Err e' => err_eqb e e'
            | _, _ => false
            end))
@@ -376,38 +386,46 @@ End Model.
 (* ================================================================================================ *)
 (* instances                                                                                         *)
 
-(* --- float64 data as exact rationals --- *)
+(* --- float64 data as exact dyadic numbers --- *)
 Definition np_atol : Q := (1 # 100000000)%Q.
 Definition np_rtol : Q := (1 # 100000)%Q.
-Definition opsQ : EigOps Q := {|
-  ksqrt := Qsqrt;
-  knormable := fun v => negb (Qle_bool v 0);
-  kre_nonneg := fun x => Qle_bool 0 x;
-  kleb := Qle_bool;
-  kabs2 := fun x => Qrmul x x;
+Definition opsD : EigOps Dy := {|
+  ksqrt := dy_sqrt;
+  knormable := fun v => (0 <? fst v)%Z;
+  kre_nonneg := fun x => (0 <=? fst x)%Z;
+  kleb := dy_leb;
+  kabs2 := fun x => dy_mul x x;
   kconj := fun x => x;
-  keqb := Qeq_bool;
-  kclose_np := fun a b => Qle_bool (Qabs (a - b)) (np_atol + np_rtol * Qabs b);
-  ksmall_np := fun a => Qle_bool (Qabs a) np_atol
+  keqb := dy_eqb;
+  kclose_np := fun a b => Qle_bool (dy2Q (dy_abs (dy_sub a b))) (np_atol + np_rtol * dy2Q (dy_abs b));
+  ksmall_np := fun a => Qle_bool (dy2Q (dy_abs a)) np_atol
 |}.
-Definition closeQ (tol a b : Q) : bool := Qle_bool (Qabs (a - b)) tol.
+Definition closeD (tol : Q) (a b : Dy) : bool := dy_le_Q (dy_abs (dy_sub a b)) tol.
 
-(* --- complex128 data as Gaussian rationals --- *)
-Definition qc_lexleb (a b : QC) : bool :=
-  if Qeq_bool (fst a) (fst b) then Qle_bool (snd a) (snd b) else Qle_bool (fst a) (fst b).
-Definition opsQC : EigOps QC := {|
-  ksqrt := QCsqrt;
-  knormable := fun v => negb (Qeq_bool (fst v) 0 && Qeq_bool (snd v) 0);
-  kre_nonneg := fun x => Qle_bool 0 (fst x);
-  kleb := qc_lexleb;
-  kabs2 := fun x => (qc_abs2 x, 0%Q);
-  kconj := qc_conj;
-  keqb := fun a b => Qeq_bool (fst a) (fst b) && Qeq_bool (snd a) (snd b);
-  kclose_np := fun a b => Qle_bool (Qsqrt (qc_abs2 (qc_sub a b))) (np_atol + np_rtol * Qsqrt (qc_abs2 b));
-  ksmall_np := fun a => Qle_bool (Qsqrt (qc_abs2 a)) np_atol
+(* --- complex128 data as pairs of dyadic numbers --- *)
+Definition dc_lexleb (a b : DyC) : bool :=
+  if dy_eqb (fst a) (fst b) then dy_leb (snd a) (snd b) else dy_leb (fst a) (fst b).
+(* |a - b| <= atol + rtol |b| on complex numbers; the square roots are avoided when |a - b| <= atol or
+   |a - b| > atol + rtol (|re b| + |im b|) already decide *)
+Definition dc_isclose (a b : DyC) : bool :=
+  let d2 := dy2Q (dc_abs2 (dc_sub a b)) in
+  if Qle_bool d2 (np_atol * np_atol) then true
+  else
+    let ub := np_atol + np_rtol * (dy2Q (dy_abs (fst b)) + dy2Q (dy_abs (snd b))) in
+    if negb (Qle_bool d2 (ub * ub)) then false
+    else Qle_bool (dy2Q (dy_sqrt (dc_abs2 (dc_sub a b)))) (np_atol + np_rtol * dy2Q (dy_sqrt (dc_abs2 b))).
+Definition opsDC : EigOps DyC := {|
+  ksqrt := dc_sqrt;
+  knormable := fun v => negb (dy_eqb (fst v) dy0 && dy_eqb (snd v) dy0);
+  kre_nonneg := fun x => (0 <=? fst (fst x))%Z;
+  kleb := dc_lexleb;
+  kabs2 := fun x => (dc_abs2 x, dy0);
+  kconj := dc_conj;
+  keqb := fun a b => dy_eqb (fst a) (fst b) && dy_eqb (snd a) (snd b);
+  kclose_np := dc_isclose;
+  ksmall_np := fun a => Qle_bool (dy2Q (dc_abs2 a)) (np_atol * np_atol)
 |}.
-Definition closeQC (tol : Q) (a b : QC) : bool :=
-  Qle_bool (Qabs (fst a - fst b)) tol && Qle_bool (Qabs (snd a - snd b)) tol.
+Definition closeDC (tol : Q) (a b : DyC) : bool := closeD tol (fst a) (fst b) && closeD tol (snd a) (snd b).
 
 (* --- the reals (theorems): the true square root, decidable order by excluded middle on R --- *)
 Definition Rleb (a b : R) : bool := if Rle_dec a b then true else false.
@@ -424,36 +442,37 @@ Definition opsR : EigOps R := {|
 |}.
 
 (* entry points of the generated case files: the model at the two evaluation instances *)
-Definition chkQ := @check_history Q NumQd opsQ (fun _ _ => O) closeQ.
-Definition chkC := @check_history QC NumQCd opsQC (fun _ _ => O) closeQC.
-Definition of_rowsQ := @of_rows Q NumQd.
-Definition of_rowsC := @of_rows QC NumQCd.
-Definition sortQ_default := @sort_default Q NumQd opsQ.
-Definition sortQ_desc := @sort_desc Q NumQd opsQ.
-Definition sortQ_rev := @sort_rev Q NumQd opsQ.
-Definition sortQ_abs := @sort_abs Q NumQd opsQ.
-Definition sortQ_dist := @sort_dist Q NumQd opsQ.
-Definition sortQ_firstk := @sort_firstk Q NumQd opsQ.
-Definition sortQ_row0 := @sort_row0 Q NumQd opsQ.
-Definition sortC_default := @sort_default QC NumQCd opsQC.
-Definition sortC_desc := @sort_desc QC NumQCd opsQC.
-Definition sortC_rev := @sort_rev QC NumQCd opsQC.
-Definition sortC_abs := @sort_abs QC NumQCd opsQC.
-Definition sortC_dist := @sort_dist QC NumQCd opsQC.
-Definition sortC_firstk := @sort_firstk QC NumQCd opsQC.
-Definition sortC_row0 := @sort_row0 QC NumQCd opsQC.
+Definition chkQ := @check_history Dy NumDy opsD (fun _ _ => O) closeD.
+Definition chkC := @check_history DyC NumDyC opsDC (fun _ _ => O) closeDC.
+Definition of_rowsQ := @of_rows Dy NumDy.
+Definition of_rowsC := @of_rows DyC NumDyC.
+Definition sortQ_default := @sort_default Dy NumDy opsD.
+Definition sortQ_desc := @sort_desc Dy NumDy opsD.
+Definition sortQ_rev := @sort_rev Dy NumDy opsD.
+Definition sortQ_abs := @sort_abs Dy NumDy opsD.
+Definition sortQ_dist := @sort_dist Dy NumDy opsD.
+Definition sortQ_firstk := @sort_firstk Dy NumDy opsD.
+Definition sortQ_row0 := @sort_row0 Dy NumDy opsD.
+Definition sortC_default := @sort_default DyC NumDyC opsDC.
+Definition sortC_desc := @sort_desc DyC NumDyC opsDC.
+Definition sortC_rev := @sort_rev DyC NumDyC opsDC.
+Definition sortC_abs := @sort_abs DyC NumDyC opsDC.
+Definition sortC_dist := @sort_dist DyC NumDyC opsDC.
+Definition sortC_firstk := @sort_firstk DyC NumDyC opsDC.
+Definition sortC_row0 := @sort_row0 DyC NumDyC opsDC.
 
 (* concrete instances for the non-vacuity examples of Props/C11.v *)
 Definition exA : @QMat.mat R := [[2; 0]; [0; 1]]%R.
 Definition exW : list R := [2; 1]%R.
 Definition exQ : @QMat.mat R := [[-1; 0]; [0; 2]]%R.
-(* a three-call history on the rational instance: default sigma, then m.sigma = 2, changing A *)
-Definition exP1 : @pencil Q := Build_pencil [[2; 1]; [1; 3]]%Q true None false.
-Definition exP2 : @pencil Q := Build_pencil [[5; 1]; [1; 4]]%Q true None false.
-Definition ex_history : list (@op Q) := [OpCall exP1; OpCall exP2; OpSetSigma (Some 2%Q); OpCall exP1].
-Definition ex_opinvs : list (option (@QMat.mat Q)) :=
+(* a three-call history on the dyadic instance: default sigma, then m.sigma = 2, changing A *)
+Definition dz (z : Z) : Dy := (z, 0%Z).
+Definition exP1 : @pencil Dy := Build_pencil [[dz 2; dz 1]; [dz 1; dz 3]] true None false.
+Definition exP2 : @pencil Dy := Build_pencil [[dz 5; dz 1]; [dz 1; dz 4]] true None false.
+Definition ex_history : list (@op Dy) := [OpCall exP1; OpCall exP2; OpSetSigma (Some (dz 2)); OpCall exP1].
+Definition ex_opinvs : list (option (@QMat.mat Dy)) :=
   map (fun c => match c with
-                | Some (Ok c) => match @cOPinv Q c with Some (_, m) => m | None => None end
+                | Some (Ok c) => match @cOPinv Dy c with Some (_, m) => m | None => None end
                 | _ => None
                 end)
-      (@run Q NumQd opsQ (fun _ _ => O) (prepare None None None 0) ex_history).
+      (@run Dy NumDy opsD (fun _ _ => O) (prepare None None None 0) ex_history).
